@@ -134,8 +134,10 @@ def discharge_texts(items, timeout_ms=20000, jobs=None, use_cvc5=True, cvc5_all=
 
     def tmo(k):
         return 2000 if (uniq[k]["kind"] == "vacuity" or uniq[k]["oid"] in brief) else timeout_ms
+    results = {k: dict(z3="unsat", z3_s=0.0, z3_extra="", literal=True) for k in order if uniq[k].get("literal")}
+    order_all = order
+    order = [k for k in order if k not in results]
     work = [(k, uniq[k]["smt2"], tmo(k)) for k in order]
-    results = {}
     if work:
         with mp.get_context("fork").Pool(min(jobs, len(work))) as pool:
             for key, res, secs, extra in pool.imap_unordered(_z3_worker, work):
@@ -150,11 +152,13 @@ def discharge_texts(items, timeout_ms=20000, jobs=None, use_cvc5=True, cvc5_all=
                 for key, res, secs, extra in pool.imap_unordered(_cvc5_worker, again):
                     results[key].update(cvc5=res, cvc5_s=secs, cvc5_extra=extra)
     out = []
-    for k in order:
+    for k in order_all:
         d = dict(uniq[k])
         d.update(results[k])
         z, c = d.get("z3"), d.get("cvc5")
-        if z == "unsat" or c == "unsat":
+        if d.get("literal"):
+            d["verdict"], d["backend"] = "discharged", "literal-true"
+        elif z == "unsat" or c == "unsat":
             d["verdict"] = "discharged"
             d["backend"] = "z3" if z == "unsat" else "cvc5"
             if (z == "sat") or (c == "sat"):       # solvers disagree: never trust
